@@ -8,7 +8,7 @@ LEVEL = "exploration"
 MINIMISE_S = 8.0
 RULES = {
     "INITIAL": "every accepted subscription is followed by one datagram to its endpoint with one notification per event (current values) within the resolver latency bound",
-    "ROUND-SET": "every notification datagram belongs to an initial, an explicit or (for groups with an interval) a cyclic round; an explicit round addresses exactly once every endpoint subscribed throughout [trigger, trigger + resolver bound], never an endpoint that is not subscribed in that span, and nothing when the group has no subscriber at the trigger",
+    "ROUND-SET": "every notification datagram belongs to an initial, an explicit or (for groups with an interval) a cyclic round; an explicit round addresses exactly once every endpoint subscribed throughout [trigger, trigger + resolver bound], never an endpoint that is not subscribed in that span, and nothing when the group has no subscriber at the trigger; a group with an interval keeps its rounds going (an endpoint subscribed for more than two intervals plus latency is served)",
     "CONTENT": "service id, method 0x8000|event, interface version = major version, NOTIFICATION, payload = a value the event had between trigger and transmission",
     "SESSION-PER-DEST": "per destination address the notifications carry session ids 1, 2, ... (0xFFFF -> 1, never 0)",
     "REFUSE": "a subscription naming other than exactly one endpoint, or an unknown eventgroup, is refused; one with exactly one endpoint for a registered eventgroup is accepted",
@@ -22,7 +22,7 @@ RULE_TEXT = (
     "notification was judged; distinct = interleaving signature"
 )
 SELFTEST_N = 20
-PROBES = ["session_wraps", "matched_initial", "matched_explicit", "cyclic_datagrams", "refused", "notify_once_without_clients", "second_subscription_for_one_endpoint"]
+PROBES = ["session_wraps", "matched_initial", "matched_explicit", "cyclic_datagrams", "refused", "notify_once_without_clients", "second_subscription_for_one_endpoint", "cyclic_liveness_judged"]
 RUNS = {"quick": 16000, "thorough": 1500000}
 HASHSEEDS = [1, 2]
 SVC = {
@@ -116,6 +116,16 @@ def gen(seed, idx, tier):
     for op in ops:
         if op.get("ph") == "io":
             del op["ph"]
+    if r.random() < 0.1:
+        # an event registered under its on-wire id (bit 15 set already): 0x8000 | id is still that id
+        HI = 0x8002
+        svc = dict(SVC, eventgroups=[{"id": 1, "interval": None, "values": {"1": "", str(HI): "aabb"}}, SVC["eventgroups"][1]])
+        cfg["service"] = svc
+        for op in ops:
+            if op["k"] == "call" and op["f"] == "set_value" and op["a"][1] == 2:
+                op["a"][1] = HI
+            elif op["k"] == "call" and op["f"] == "notify_once" and op["a"][0] == 1:
+                op["a"][1] = [HI if e == 2 else e for e in op["a"][1]]
     return {"engine": "svc", "property": ID, "class": "shared-endpoint" if shared else "random", "seed": seed, "cfg": cfg, "ops": ops, "until": round(t + 3.0, 6)}
 
 
